@@ -25,6 +25,8 @@ var (
 	scratches []string
 )
 
+func init() { core.AtExit(Cleanup) }
+
 // Env returns the environment for go invocations.
 func Env(extra ...string) []string {
 	env := os.Environ()
